@@ -1,7 +1,7 @@
 """C14: no purge without consent: --dry-run and a negative answer change
 nothing."""
 import z3
-from . import purge, scenarios, dates
+from . import purge, scenarios, dates, options
 
 PROPERTY = 'C14'
 LEVEL_NOTE = ('Emptier.do_empty under dry_run: zero mutating events on every '
@@ -11,6 +11,10 @@ LEVEL_NOTE = ('Emptier.do_empty under dry_run: zero mutating events on every '
               'points); Guard/User/EmptyAction.run_action: the emptier is '
               'reached only after such a reply, never on EOF/interrupt')
 EXPECTED = [
+    'empty-options/dry-run-only-with-its-flag',
+    'empty-options/interactive-is-the-default-overridden-by-the-last-of-i-and-f',
+    'empty-options/days-is-the-integer-operand',
+    'empty-options/trash-dirs-are-the-option-values-in-order',
     'empty-dry/dry-run-removes-nothing',
     'empty-dry/purged-iff-old-enough',
     'empty-dry/entry-removed-whole-payload-then-info',
@@ -35,6 +39,7 @@ def build(S, tier, seed):
     purge.consent_vc(S)
     purge.empty_vc(S, dry_run=True, prefix='empty-dry')
     purge.empty_vc(S, dry_run=False)
+    options.empty_options_vc(S)
 
 
 def _battery(S, r, o):
@@ -47,8 +52,9 @@ KF_CLASSES = {}
 
 def finalize_args(S, tier, seed):
     return {'bounded': [], 'extra_assumptions': [
-        'argparse wiring of trash-empty (-i/-f/--dry-run/DAYS type=int, '
-        'default interactive = isatty(0)) is assumed',
+        'argparse is modelled (pyvc/argmodel.py) for canonical argument vectors '
+        '(options.. [--] operand); the option VC empty-options is bounded to <= 2 '
+        'option tokens; the default of --interactive comes from is_input_interactive (own contract)',
         'C14 "prints exactly the paths the real run removes": both modes '
         'consume the same generator; that removing already-yielded paths does '
         'not change later yields (one os.listdir snapshot per directory) is '
